@@ -9,6 +9,8 @@ from fractions import Fraction
 
 import numpy as np
 
+from hyverif.core import digest
+
 ID = "C20"
 SHARDS = {"quick": 8, "thorough": 16}
 BUDGET = {"quick": 300, "thorough": 1800}
@@ -169,6 +171,9 @@ def run_stdnorm_case(ctx, case):
               lambda: {"x": xs[:10], "u": us[:10]})
     if len(x) >= 2:
         ctx.nontrivial("sn", x, cst)
+    ctx.presentations("standard_normal", lambda x_: su.standard_normal(x_, cst), [x],
+                      (u, np.asarray(ranks)), case,
+                      np.random.default_rng(digest(x) % 2 ** 32), n=1)
 
 
 # ------------------------------------------------------------- pareto front ----
@@ -212,6 +217,11 @@ def run_pareto_case(ctx, case):
         if not hasnan and n >= 1:
             ctx.check("pareto.front-nonempty", int((got == 0).sum()) >= 1,
                       "pareto_front|empty-front", case, {"orientation": ori})
+        if data.size:
+            ctx.presentations("pareto_front",
+                              lambda d_: np.asarray(su.pareto_front(d_, ori)), [data],
+                              got, case,
+                              np.random.default_rng(digest(data, ori) % 2 ** 32), n=1)
         neg = np.asarray(su.pareto_front(-data, -ori))
         ctx.check("pareto.orientation-is-negation", bool(np.array_equal(neg, got)),
                   "pareto_front|orientation", case,
@@ -336,6 +346,14 @@ def run_box_case(ctx, case):
         if len(fin) >= 2:
             ctx.evaluated()
             ctx.nontrivial("box", c, bc, wc)
+
+        def bstats(c_):
+            with warnings.catch_warnings():
+                warnings.simplefilter("ignore")
+                return np.asarray(boxplot.boxplot_stats(c_, bc, wc).values, dtype=float)
+        ctx.presentations("boxplot_stats", bstats, [c], bstats(c.copy()), case,
+                          np.random.default_rng(digest(c, bc) % 2 ** 32), n=1,
+                          rtol=1e-12, atol=1e-12 * mag)
     # Boxplot object: per-column stats
     ctx.api("Boxplot")
     with warnings.catch_warnings():
